@@ -113,6 +113,8 @@ static const unsigned opn2_emulatorSupport = 0
 //! Check emulator availability
 bool opn2_isEmulatorAvailable(int emulator)
 {
+    if(emulator < 0 || emulator >= OPNMIDI_EMU_end)
+        return false;
     return (opn2_emulatorSupport & (1u << (unsigned)emulator)) != 0;
 }
 
